@@ -341,6 +341,8 @@ def gen_ops(rnd, nops):
 class C17(object):
     id = "C17"
     engine = "histsim"
+    time_keys = {"operations": "operations applied to the system and the model"}
+    fault_keys = ["operations_that_raised"]
     tiers = {"quick": {"runs": 40000, "budget_s": 60, "selftest_every": 100, "fresh_selftest": 10},
              "thorough": {"runs": 4000000, "budget_s": 800, "selftest_every": 1000, "fresh_selftest": 20}}
     rule = ("one run = one history: initial columnfile (empty | dict-built | text-file-loaded | HDF-loaded) followed by "
